@@ -242,6 +242,25 @@ def run(ctx):
             ent, dm = CMODES[k % len(CMODES[:6])]
             cases.append(dict(id="c%d" % len(cases), di=i, x=bytes(x), entry=ent if ent == "compress2" else "%s:%d" % (ent, level), dictmode=dm,
                               params={"level": level, "checksum": 1}))
+        # same dictionary, but every block so far was COMPRESSED with few sequences and at least two offset codes (Huffman-friendly
+        # text without repeats + a few dozen snippets of the dictionary), so the table may be re-used without a symbol check;
+        # the third block then refers further back than the table reaches
+        for k, level in enumerate([1, 2, 3, 4, 1, 3] if ctx.quick else [1, 2, 3, 4, 1, 2, 3, 4, 5, 6]):
+            x = bytearray(codec.gen_input(rng, "debruijn", 3 * 131072))
+            for b in (0, 1):
+                for _ in range(rng.choice([12, 30, 60])):
+                    ln = rng.choice([40, 100, 300])
+                    at = b * 131072 + rng.randrange(2000, 131072 - 400)
+                    src = rng.randrange(0, len(OFP_CONTENT) - ln) if rng.random() < 0.6 else rng.randrange(len(OFP_CONTENT) - 3000, len(OFP_CONTENT) - ln)
+                    x[at:at + ln] = OFP_CONTENT[src:src + ln]
+            for _ in range(rng.choice([1, 3, 10])):
+                ln = rng.choice([200, 1000, 3000])
+                at = 2 * 131072 + rng.randrange(1000, 131072 - 3100)
+                src = rng.randrange(0, 20000)
+                x[at:at + ln] = OFP_CONTENT[src:src + ln]
+            ent, dm = CMODES[k % len(CMODES[:6])]
+            cases.append(dict(id="c%d" % len(cases), di=i, x=bytes(x), entry=ent if ent == "compress2" else "%s:%d" % (ent, level), dictmode=dm,
+                              params={"level": level, "checksum": 1}))
     out, errs = cd.impl(["C %s %s %s %s %s %s" % (c["id"], c["entry"], codec.params_str(c["params"]) if c["entry"] == "compress2" else "-",
                                                    c["dictmode"], codec.hx(dicts[c["di"]][1]), codec.hx(c["x"])) for c in cases])
     if errs:
